@@ -84,6 +84,13 @@ type Q = Qmc<TapRng, FastOps>;
 
 const KS: [i32; 3] = [20, 30, 40];
 const DEEP: i32 = 60;
+/// downward twins + UPWARD twins (model x 2^20 / 2^60, beta x 2^-20 / 2^-60): every absolute threshold of the unchanged library is a
+/// lower bound, so scaling up is threshold free at any depth
+const KSUP: [i32; 5] = [20, 30, 40, -20, -60];
+/// how a twin is named in messages: model factor and beta factor
+fn sc(k: i32) -> String {
+    format!("2^{:+} (beta x 2^{:+})", -k, k)
+}
 fn p2(k: i32) -> f64 {
     2f64.powi(k)
 }
@@ -210,7 +217,7 @@ impl<S> Twins<S> {
             count_k(*k);
             match catch(|| build(*k)) {
                 Ok((s, t)) => twins.push((*k, s, t)),
-                Err(e) => errs.push(format!("{} scale invariance: constructor of the twin scaled by 2^-{} panicked: {}", tag, k, e)),
+                Err(e) => errs.push(format!("{} scale invariance: constructor of the twin scaled by {} panicked: {}", tag, sc(*k), e)),
             }
         }
         Ok(Twins { unit, twins, errs, dead: false, calls: 0 })
@@ -249,7 +256,7 @@ impl<S> Twins<S> {
             };
             if let Some(m) = msg {
                 if self.errs.len() < 3 {
-                    self.errs.push(format!("{} scale invariance: call {} ({}) of the twin scaled by 2^-{} (beta x 2^{}): {}", tag, self.calls, what, k, k, clip(&m)));
+                    self.errs.push(format!("{} scale invariance: call {} ({}) of the twin scaled by {}: {}", tag, self.calls, what, sc(*k), clip(&m)));
                 }
                 lost.push(i);
             }
@@ -285,7 +292,7 @@ impl<S> Twins<S> {
             };
             if let Some(m) = msg {
                 if self.errs.len() < 3 {
-                    self.errs.push(format!("{} scale invariance: {} of the twin scaled by 2^-{}: {}", tag, what, k, clip(&m)));
+                    self.errs.push(format!("{} scale invariance: {} of the twin scaled by {}: {}", tag, what, sc(*k), clip(&m)));
                 }
             }
         }
@@ -825,7 +832,7 @@ fn mode_c03(r: &mut SplitMix64) {
             let res = res.and_then(|_| valid_ising(&g));
             if let Err(e) = res {
                 if errs.len() < 3 {
-                    errs.push(format!("{}: step {} of the run scaled by 2^-{} (beta x 2^{}): {}", if *k == 0 { "RVB run invalid at UNIT scale" } else { "C03/C06 scale invariance (validity of a run with RVB updates)" }, step, k, k, clip(&e)));
+                    errs.push(format!("{}: step {} of the run scaled by {}: {}", if *k == 0 { "RVB run invalid at UNIT scale" } else { "C03/C06 scale invariance (validity of a run with RVB updates)" }, step, sc(*k), clip(&e)));
                 }
                 break;
             }
@@ -885,7 +892,7 @@ fn mode_c01(r: &mut SplitMix64) {
             g.set_enable_heatbath(hb);
             (g, vec![t])
         },
-        &KS,
+        &KSUP,
     ) {
         Ok(t) => t,
         Err(e) => return case(true, &input, Err(e)),
@@ -929,7 +936,7 @@ fn mode_c04(r: &mut SplitMix64) {
             let (q, t) = build_generic(&gs, k, &st, seed);
             (q, vec![t])
         },
-        &KS,
+        &KSUP,
     ) {
         Ok(t) => t,
         Err(e) => return case(true, &input, Err(e)),
@@ -956,9 +963,11 @@ fn mode_c04(r: &mut SplitMix64) {
     }
     let n = catch(|| tw.unit.0.get_manager_ref().get_n()).unwrap_or(1);
     case(n > 0, &input, tw.done());
+    deep_offsets(r, "c04");
 }
 /// c17: energies of every measuring helper x c (both samplers)
 fn mode_c17(r: &mut SplitMix64) {
+    deep_offsets(r, "c17");
     let t = r.range(1, 8) as usize;
     let f = if r.coin() { None } else { Some(r.range(1, 3) as usize) };
     let beta = gen_beta(r);
@@ -992,7 +1001,7 @@ fn mode_c17(r: &mut SplitMix64) {
                 let (g, tp) = build_ising(&s, k, 3, &st, seed);
                 (g, vec![tp])
             },
-            &KS,
+            &KSUP,
         ) {
             Ok(x) => x,
             Err(e) => return case(true, &input, Err(e)),
@@ -1009,7 +1018,7 @@ fn mode_c17(r: &mut SplitMix64) {
                 let (q, tp) = build_generic(&gs, k, &st, seed);
                 (q, vec![tp])
             },
-            &KS,
+            &KSUP,
         ) {
             Ok(x) => x,
             Err(e) => return case(true, &input, Err(e)),
@@ -1134,6 +1143,7 @@ fn mode_c05(r: &mut SplitMix64) {
 }
 /// c15: conversion commutes with scaling
 fn mode_c15(r: &mut SplitMix64) {
+    deep_into_qmc(r);
     let with_h = r.chance(1, 3);
     let s = gen_ising_spec(r, Some(with_h));
     let beta = gen_beta(r);
@@ -1151,7 +1161,7 @@ fn mode_c15(r: &mut SplitMix64) {
         }
         (g.into_qmc(), vec![t])
     };
-    let mut tw = match Twins::new("C15", build, &KS) {
+    let mut tw = match Twins::new("C15", build, &KSUP) {
         Ok(t) => t,
         Err(e) => return case(true, &input, Err(format!("C15 scale invariance: {}", e))),
     };
@@ -1161,7 +1171,7 @@ fn mode_c15(r: &mut SplitMix64) {
         let mut bad = vec![];
         for (k, q, t) in tw.twins.iter() {
             if let Some(d) = obs_diff(&ou[0], &oq(q, t)[0]) {
-                bad.push(format!("C15 scale invariance: configuration carried over by into_qmc of the twin scaled by 2^-{} differs: {}", k, clip(&d)));
+                bad.push(format!("C15 scale invariance: configuration carried over by into_qmc of the twin scaled by {} differs: {}", sc(*k), clip(&d)));
             }
         }
         tw.errs.extend(bad.into_iter().take(2));
@@ -1174,6 +1184,76 @@ fn mode_c15(r: &mut SplitMix64) {
     }
     let n = catch(|| tw.unit.0.get_manager_ref().get_n()).unwrap_or(1);
     case(n > 0, &input, tw.done());
+}
+
+/// DEEP constructor-only twins (no sampling, hence sound at any depth): offsets recorded by the `*_and_offset` constructors and
+/// by `into_qmc`, and the energy formula, on models x 2^-60 / 2^+60 (and the usual factors)
+const KDEEP: [i32; 6] = [60, -60, 40, -40, 20, -20];
+fn offsets_only(q: &Q, k: i32) -> (Vec<f64>, String) {
+    let mut e = vec![q.get_offset()];
+    for nbar in [0.0, 1.0, 3.5, 17.25] {
+        for b in [0.5, 1.0, 8.0] {
+            e.push(q.get_energy_for_average_n(nbar, b * p2(k)));
+        }
+    }
+    (e, format!("bonds:{}", q.get_bonds().len()))
+}
+fn deep_offsets(r: &mut SplitMix64, mode: &str) {
+    // a model whose every term goes through an offset constructor (negative and positive shifts, also shifts of exactly 0)
+    let nvars = r.range(2, 5) as usize;
+    let mut terms = gen_terms(r, 2, nvars);
+    for v in 0..nvars {
+        let a = *r.pick(&[-1.5, -0.25, 0.0, 0.125, 0.5, 2.0]);
+        let b = *r.pick(&[-1.0, 0.0, 0.25, 0.75]);
+        terms.push(Term { ctor: 1, mat: vec![a, 0.5, 0.5, b], vars: vec![v] });
+        terms.push(Term { ctor: 3, mat: vec![b, a], vars: vec![v] });
+    }
+    let gs = GenSpec { kind: 2, nvars, terms, loops: false, heatbath: false };
+    let st = vec![false; nvars];
+    let input = format!("{} deep-offsets {} k={}", mode, terms_token(&gs), list(&KDEEP));
+    let mut tw = match Twins::new(
+        "C04/C17",
+        |k| {
+            let (q, t) = build_generic(&gs, k, &st, 1);
+            (q, vec![t])
+        },
+        &KDEEP,
+    ) {
+        Ok(t) => t,
+        Err(e) => return case(true, &input, Err(e)),
+    };
+    tw.compare("C04/C17", "offset recorded by the *_and_offset constructors / energy formula", &offsets_only);
+    case(true, &input, tw.done());
+}
+fn deep_into_qmc(r: &mut SplitMix64) {
+    // downward the field must be 0 (the unchanged `into_qmc` has the absolute field threshold F24); upward any field
+    let with_h = r.coin();
+    let s = gen_ising_spec(r, Some(with_h));
+    let st = vec![false; s.nvars];
+    let ks: Vec<i32> = if with_h { vec![-60, -40, -20, 20, 40] } else { KDEEP.to_vec() };
+    let input = format!("c15 deep-into_qmc {} k={}", spec_token(&s), list(&ks));
+    let gamma = s.gamma;
+    let nv = s.nvars as f64;
+    let mut tw = match Twins::new(
+        "C15/C04/C17",
+        |k| {
+            let (g, t) = build_ising(&s, k, 2, &st, 1);
+            let ising_offset = g.get_offset();
+            let ising_e = g.get_energy_for_average_n(3.5, 0.5 * p2(k));
+            let q = g.into_qmc();
+            // E_ising - E_qmc = nvars * Gamma (one run-independent constant), at every scale
+            let c = p2(-k);
+            assert!(ising_offset - q.get_offset() == nv * gamma * c, "C15 offset difference {} is not nvars*Gamma = {}", ising_offset - q.get_offset(), nv * gamma * c);
+            assert!(ising_e - q.get_energy_for_average_n(3.5, 0.5 * p2(k)) == nv * gamma * c, "C15 energy difference is not nvars*Gamma");
+            (q, vec![t])
+        },
+        &ks,
+    ) {
+        Ok(t) => t,
+        Err(e) => return case(true, &input, Err(format!("C15 scale invariance: {}", e))),
+    };
+    tw.compare("C15/C04/C17", "offset after into_qmc / energy formula", &offsets_only);
+    case(true, &input, tw.done());
 }
 
 fn guarded(what: &str, f: impl FnOnce()) {
